@@ -278,6 +278,8 @@ func makeField(v reflect.Value, params fieldParameters) (encoder, error) {
 					tag.tagNumber = TagSequence
 				}
 				s := make([]encoder, structType.NumField())
+				// a SEQUENCE/SET whose OPTIONAL members are all absent has empty contents
+				berType.value = structEncoder(s)
 				for i := 0; i < structType.NumField(); i++ {
 					tempParams := parseFieldParameters(structType.Field(i).Tag.Get("ber"))
 					if tempParams.optional {
